@@ -510,6 +510,44 @@ def cross_file_responses(ctx, cov):
     return dict(workspaces=nws, locations_checked=nloc)
 
 
+FOREIGN_STEM = "link-names-the-stem-file-of-the-class-name"
+
+
+def foreign_stem_finding(ctx, cov):
+    """the listed finding (known_findings.json): a file that declares a class named like ANOTHER file's stem.  Its witness is
+    replayed against the real server on every run; the generated workspaces never have this shape (every file is named
+    after its class), so nothing else can be attributed to it."""
+    import os, shutil, tempfile
+    from vlib import lsp
+    listed = any(f.get("property") == "C08" and f.get("id") == FOREIGN_STEM for f in ctx.open_findings())
+    root = tempfile.mkdtemp(prefix="goldverif-c08f-")
+    try:
+        open(os.path.join(root, "aA.god"), "w").write("class aB\n\n\n\nfp : int4\n")
+        open(os.path.join(root, "aB.god"), "w").write("class aB")
+        s = lsp.Session(lsp.build_server(), root)
+        s.initialize(root)
+        s.request(2, "textDocument/definition", {"textDocument": {"uri": lsp.file_uri(os.path.join(root, "aA.god"))},
+                                                 "position": {"line": 4, "character": 1}})
+        r = s.wait_response(2, 30) or {}
+        s.shutdown_exit(9, 20)
+    finally:
+        shutil.rmtree(root, ignore_errors=True)
+    links = r.get("result") or []
+    bad = [l for l in links if os.path.basename(l.get("targetUri", "")) == "aB.god" and l["targetRange"]["start"]["line"] > 0]
+    if bad and listed:
+        ctx.known("%s: reproduces on its witness (aA.god declares class aB next to aB.god: the link on fp names aB.god with line 4)" % FOREIGN_STEM)
+    elif bad:
+        path = core.write_replay(ctx.pid, ctx.seed, {"engine": "server(debug build)", "workspace": {"aA.god": "class aB\n\n\n\nfp : int4\n", "aB.god": "class aB"},
+                                                   "observed": json.dumps(bad)[:600], "expected": "a link names a document and ranges inside it"})
+        raise core.Violation("a definition link names aB.god with a range on a line aB.god does not have", path, True)
+    elif listed:
+        path = core.write_replay(ctx.pid, ctx.seed, {"broken": "listed finding %s no longer reproduces on its witness" % FOREIGN_STEM, "observed": json.dumps(links)[:600]})
+        v = core.Violation("listed finding does not reproduce", path, False)
+        v.coverage = cov
+        raise v
+    cov["foreign_stem_witness"] = "reproduces (listed)" if bad else "does not occur"
+
+
 def diag_response_ranges(ctx, cov, cases):
     """the diagnostics RESPONSE (ProjectManager::generate_document_diagnostic_report: parser diagnostics as assembled for the
     client + the analysers' items), through harness engine `report`: every item's range has start <= end and lies on
@@ -584,6 +622,7 @@ def correspondence(ctx, broken_obligations=()):
             v.coverage = cov
             raise v
     cov["cross_file_responses"] = cross_file_responses(ctx, cov)
+    foreign_stem_finding(ctx, cov)
     cov["diagnostics_response_ranges"] = diag_response_ranges(ctx, cov, cases)
     cov["project_manager_cases"] = len(pmc)
     cov["project_manager_symbols"] = n_sym
